@@ -220,6 +220,10 @@ func Gen(t *rapid.T, label string, o GenOpts) Spec {
 		s.PalN = rapid.SampledFrom([]int{1, 2, 3, 16, 255, 256}).Draw(t, label+"paln")
 	}
 	w := rapid.IntRange(0, maxDim).Draw(t, label+"w")
+	if o.TallRows > 0 && rapid.IntRange(0, 7).Draw(t, label+"wide") == 0 {
+		// occasionally wide rows: powers of two and their neighbours, widths beyond one cache line of 16-bit pixels
+		w = rapid.SampledFrom([]int{15, 16, 17, 31, 32, 33, 63, 64, 65, 70}).Draw(t, label+"wwide")
+	}
 	h := rapid.IntRange(0, maxDim).Draw(t, label+"h")
 	if o.TallRows > 0 && rapid.IntRange(0, 3).Draw(t, label+"tall") == 0 {
 		// more rows than the largest parallelism, so that every worker owns at least one row
